@@ -19,7 +19,9 @@ Inductive case :=
          (gets : list (runes * list (bytes * N)))
          (keys : list bytes)
          (values : list (bytes * list bytes))
-         (dims : list (bytes * list bytes)).
+         (dims : list (bytes * list bytes))
+         (hkeys : list bytes)                       (* GET /labels through the server mux, JSON-decoded *)
+         (hvalues : list (bytes * list bytes)).     (* GET /label-values?label=k *)
 
 Definition beq (a b : bytes) : bool := list_eqb N.eqb a b.
 Definition bl_eqb (a b : list bytes) : bool := list_eqb beq a b.
@@ -101,7 +103,7 @@ Definition check_case (c : case) : verdict :=
         [ spec (list_eqb bl_eqb keys sets) "a dimension is not the sorted set of the keys inserted and not deleted";
           corr (list_eqb bl_eqb mdims keys) "d_insert/d_delete model differs from Dimension.Insert/Delete" ]
         ++ flat_map (check_order sets mdims) orders)
-  | CStore sops gets keys values dims =>
+  | CStore sops gets keys values dims hkeys hvalues =>
       let ops := map to_iop sops in
       let st := ix_run ops in
       let sig := tag_name_colon ops in
@@ -118,7 +120,15 @@ Definition check_case (c : case) : verdict :=
                                      | Some vs => memb (app_name K) vs
                                      | None => false end) (live ops))
                "an application with data is missing from GetValues(__name__)";
-             corr (set_eqb (get_keys (ix_labels st)) keys) "labels model: get_keys differs from GetKeys" ]
+             spec (forallb (fun K => forallb (fun kv => has c_colon (fst kv) || pair_listed hkeys hvalues kv) K) (puts_of ops))
+               "an ingested tag name or value is not listed verbatim by GET /labels, /label-values";
+             spec (forallb (fun K => match assoc name_key hvalues with
+                                     | Some vs => memb (app_name K) vs
+                                     | None => false end) (live ops))
+               "an application with data is missing from GET /label-values?label=__name__";
+             corr (set_eqb (get_keys (ix_labels st)) keys) "labels model: get_keys differs from GetKeys";
+             corr (set_eqb (get_keys (ix_labels st)) hkeys) "labels model: get_keys differs from GET /labels" ]
         ++ map (fun kv => corr (set_eqb (get_values (fst kv) (ix_labels st)) (snd kv)) "labels model: get_values differs from GetValues") values
+        ++ map (fun kv => corr (set_eqb (get_values (fst kv) (ix_labels st)) (snd kv)) "labels model: get_values differs from GET /label-values") hvalues
         ++ map (fun nd => corr (bl_eqb (dm_get (fst nd) (ix_dims st)) (snd nd)) "index model: a dimension differs from the stored one") dims)
   end.
